@@ -515,7 +515,7 @@ theorem idx_ackOpen {s s' : St} {c seq ph : Nat} {isTimeout isErr : Bool} (h4 : 
               · cases ha
               · rename_i s2 he
                 cases ha
-                exact IdxInv.of_frame (IFrame.ofD (frame_eibcOnRefund he)) key
+                exact IdxInv.of_frame (IFrame.ofD (frame_eibcOnRefund (eibcRefundHandler_ok he))) key
             · cases ha
               exact key
 
@@ -659,6 +659,11 @@ theorem idx_step {s : St} (o : Op) (hp : BoundedOp o) (h4 : Inv04 s) (h : IdxInv
   | block => exact IdxInv.of_frame (s := s) (s' := { s with h := s.h + 1 }) ⟨rfl, rfl, rfl, rfl⟩ h
   | chanClose c => exact idx_ofM h (fun _ e => IdxInv.of_frame (IFrame.ofD (frame_setChanClosed e)) h)
   | chanOpen c => exact idx_ofM h (fun _ e => IdxInv.of_frame (IFrame.ofD (frame_setChanClosed e)) h)
+  | timeoutOnClose c seq => exact idx_ofM h (fun _ e => by unfold timeoutOnClose at e; split at e <;> cases e; exact h)
+  | sendBlk a c d amt =>
+    exact idx_ofM h (fun _ e => by
+      obtain ⟨s1, hs, rfl⟩ := sendBlk_ok e
+      exact IdxInv.of_frame ((iframe_sendOpen hs).trans (⟨rfl, rfl, rfl, rfl⟩ : IFrame s1 (markBlk s1 c (getNextSeq s c)))) h)
 
 theorem idx_run : ∀ (ops : List Op) {s : St}, (∀ o ∈ ops, BoundedOp o) → Inv04 s → IdxInv s → IdxInv (run s ops)
   | [], _, _, _, h => h
